@@ -215,4 +215,26 @@ def step (c : Cache) : Op → Except Err (Cache × Out)
   | .put e => put c e
   | .discard e => discard c e
 
+/-! ### life cycle of a released cache (`cache_release`, and the orphan branches of `cache_put_entry` / `cache_discard`)
+
+A page cache that is replaced (cache.size / page size changed, another file opened) may still have entries lent to
+libaddrxlat.  `cache_release` frees it at once when no entry is referenced; otherwise it is marked `orphan` and the put or
+discard that drops the last reference frees it.  `refs` = the reference counts of all `2 * cap` entries. -/
+structure Life where
+  refs : List Nat
+  orphan : Bool := false
+  freed : Bool := false
+  deriving Repr, DecidableEq
+
+def Life.idle (l : Life) : Bool := l.refs.all (· == 0)
+
+/-- `cache_release` -/
+def Life.release (l : Life) : Life :=
+  if l.idle then { l with orphan := true, freed := true } else { l with orphan := true }
+
+/-- `cache_put_entry` / `cache_discard` of entry `i` of an orphaned cache (the caller holds a reference) -/
+def Life.drop (l : Life) (i : Nat) : Life :=
+  let l' := { l with refs := l.refs.modify i (· - 1) }
+  if l'.refs.getD i 0 == 0 && l'.orphan then l'.release else l'
+
 end Kdf.Model.Cache
